@@ -71,14 +71,19 @@ def plumbing(entry: int, ahb_beh: int, cond_beh: int) -> bool:
     entry, ahb_beh, cond_beh = xs.pick(entry, 0, 4), xs.pick(ahb_beh, 0, 4), xs.pick(cond_beh, 0, 4)
     with xs.nt():
         _capture()
+        names = []
         for mod in (cep, aep):
-            if not hasattr(mod, "_parser"):
-                raise xs.HarnessError(f"{mod.__name__}._parser not found (refactored?)")
-        saved = (cep._parser, aep._parser)
+            found = env._parser_attrs(mod)
+            if len(found) != 1:
+                raise xs.Inconclusive(f"{mod.__name__}: expected exactly one module-level Lark object to stub, found {found}; the assembled strings still go through the real parsers")
+            names.append(found[0])
+        cname, aname = names
+        saved = (getattr(cep, cname), getattr(aep, aname))
         ctree = Tree("condition", [Token("CONDITION_KEY", "1")])
         atree = Tree("ahb_expression", [Tree("single_requirement_indicator_expression", [Token("MODAL_MARK", "Muss"), Token("CONDITION_EXPRESSION", _fresh_input())])])
         cstub, astub = StubParser(cond_beh, ctree), StubParser(ahb_beh, atree)
-        cep._parser, aep._parser = cstub, astub
+        setattr(cep, cname, cstub)
+        setattr(aep, aname, astub)
         text = _fresh_input()
         env.configure([valid_glue._Rc(0), valid_glue._Fc(0), valid_glue._Hints(), env.YResolver({}, [], env.Log())])
     try:
@@ -91,11 +96,12 @@ def plumbing(entry: int, ahb_beh: int, cond_beh: int) -> bool:
         else:
             got = _outcome(lambda: detloop.run(is_valid_expression(text, valid_glue.CER.set)))
     finally:
-        cep._parser, aep._parser = saved
+        setattr(cep, cname, saved[0])
+        setattr(aep, aname, saved[1])
     xs.reached()
     desc = f"entry={('condition parser', 'AHB parser', 'resolver', 'is_valid_expression')[entry]}, AHB parse {('returns a tree', 'raises UnexpectedEOF', 'raises UnexpectedCharacters', 'raises TypeError')[ahb_beh]}, condition parse {('returns a tree', 'raises UnexpectedEOF', 'raises UnexpectedCharacters', 'raises TypeError')[cond_beh]}"
     if entry in (0, 1) and (cstub.calls if entry == 0 else astub.calls) == 0:
-        raise xs.HarnessError("stub parser was never called: the entry point no longer goes through <module>._parser")
+        raise xs.Inconclusive("stub parser was never called: the entry point no longer goes through the module-level Lark object; the assembled strings still go through the real parsers")
     if entry < 3:
         if got not in ("tree", "SyntaxError"):
             return xs.fail(f"{desc}: outcome is '{got}', expected a tree or SyntaxError", entry=entry, ahb_beh=ahb_beh, cond_beh=cond_beh)
